@@ -45,6 +45,7 @@ func propC08(w *World, r *Report) {
 	RunPrevSentinel(w, r, enc)
 	r.Floor("prevsentinel", 1)
 	RunIterFresh(w, r, enc)
+	runFlagReduceIn(w, r, "/opentype/gtab", "/opentype/coverage", "/opentype/classdef", "/opentype/gdef")
 	RunIterFreshControl(r)
 	r.Floor("deadguard", 10)
 	r.Floor("twinformula", 1)
@@ -68,6 +69,7 @@ func propC11(w *World, r *Report) {
 	br11 := newBoundsRun(w)
 	RunLosslessFor(w, r, "C11", br11)
 	runNarrowBoundIn(w, r, br11, "/glyf")
+	runFlagReduceIn(w, r, "/glyf")
 	var gl []*ssa.Function
 	for _, f := range w.LibFuncs() {
 		if strings.HasSuffix(fnPkgPath(f), "/glyf") {
